@@ -2,7 +2,7 @@
    consequences.  Everything is for ALL histories (induction over the operation list). *)
 From Coq Require Import ZArith List Bool Arith Lia.
 From MomoCommon Require Import GenPrelude.
-From C20 Require Import PoolAlloc.
+From C20 Require Import PoolAlloc DiffRun.
 From C20 Require Gen_PoolAllocator Gen_MemPoolOps Gen_MemPool Gen_MemPoolNewBlock Gen_PoolAllocatorHandles.
 Import ListNotations.
 Local Open Scope nat_scope.
@@ -1878,6 +1878,31 @@ Proof.
   destruct (Z.eqb_spec head 0); [contradiction|]. cbv zeta.
   apply negb_true_iff in Hl. rewrite Hl. reflexivity.
 Qed.
+
+(* ------------------------------------------------------------------ final round: the executed pvNewBlock instance *)
+(* what the executed instance of the GENERATED pvNewBlock (DiffRun.gen_newblock, compared with the real pool on every allocation
+   that takes a block from an existing head buffer) computes: the handed-out block's next-free link becomes the first free index,
+   the free count drops by one, and the head moves exactly when that was the last block - to the next buffer if there is one,
+   else to the newly allocated look-ahead buffer *)
+Local Open Scope Z_scope.
+Lemma unpack f c : 0 <= c < 1000 -> -200 <= f -> (pack_bytes f c / 1000 - 200 = f) /\ (pack_bytes f c mod 1000 = c).
+Proof.
+  intros Hc Hf. unfold pack_bytes. split.
+  - rewrite Z.div_add_l by lia. rewrite Z.div_small by lia. lia.
+  - rewrite Z.add_comm, Z.mod_add by lia. apply Z.mod_small; lia.
+Qed.
+Lemma gen_newblock_spec f c nn nf : 1 <= c < 1000 -> -200 <= f -> -200 <= nf ->
+  gen_newblock f c nn nf = ((if c - 1 =? 0 then (if nn then 2 else 1) else 0), nf, c - 1).
+Proof.
+  intros Hc Hf Hn. unfold gen_newblock, Gen_MemPoolNewBlock.pvNewBlock.
+  destruct (unpack f c ltac:(lia) Hf) as [U1 U2]. destruct (unpack nf (c - 1) ltac:(lia) Hn) as [V1 V2].
+  change (100 =? 0) with false. cbv iota. cbv beta zeta. rewrite U2.
+  destruct (Z.eqb_spec c 1) as [->|Hc1].
+  - change (1 - 1) with 0 in *. change (0 =? 0) with true. cbv iota.
+    destruct nn; cbn [andb Z.eqb]; cbv iota; rewrite V1, V2; reflexivity.
+  - cbn [andb]. cbv iota. destruct (Z.eqb_spec (c - 1) 0); [lia|]. rewrite V1, V2. reflexivity.
+Qed.
+Local Close Scope Z_scope.
 
 (* ------------------------------------------------------------------ outside the claim: without H *)
 Definition t24 : vtype := mkVt 24 8.
